@@ -720,7 +720,7 @@ class FusionART(BaseART):
         if len(target_channels) == 1:
             return np.array([centers[0][c] for c in C])
         else:
-            return [np.array([centers[k][c] for c in C]) for k in target_channels]
+            return [np.array([center[c] for c in C]) for center in centers]
 
     def join_channel_data(
         self, channel_data: List[np.ndarray], skip_channels: List[int] = []
